@@ -199,6 +199,15 @@ def h_multi(ctx):
                     vs.append(viol(f"per-recipient header member lost or changed: {tag}", f"{ctxs}: {k}"))
         if (d.value[4] or None) != aad:
             vs.append(viol(f"AAD changed: {tag}", ctxs))
+    # every recipient on its own - it holds only its own key and asks for any-recipient validation - gets the plaintext
+    if ctx.deviate("each_recipient_on_its_own", [False, True]):
+        from joserfc import jwe
+        for j, pk in enumerate(privs):
+            reg = jwe.JWERegistry(algorithms=algs, verify_all_recipients=False)
+            d1 = scen.jwe_decrypt(copy.deepcopy(token), pk, None, registry=reg, sender_key=A.jkey(sender_jwk, "dict", private=False) if has_1pu else None)
+            if not d1.ok or d1.value[0] != plaintext:
+                vs.append(viol(f"a recipient holding only its own key does not get the plaintext under any-recipient validation: {tag}",
+                               f"{ctxs}: recipient {j} ({MIX_KINDS[mix[j]][0]}): {d1.exc!r}"))
     # every recipient, on its own, decrypts under the reference
     for j, jwk in enumerate(refs):
         try:
@@ -235,6 +244,35 @@ def h_forbidden(ctx):
         vs.append(viol(f"direct mode {d_alg.split('-')[0] if d_alg != 'dir' else 'dir'}* with several recipients is not refused at encryption",
                        f"{d_alg} + {n_other} x {o_alg}, {order}, enc {enc}: a token was produced"))
     return Outcome(f"refused:{r.etype}" if not r.ok else "produced", vs, nontrivial=(d_alg, o_alg, order, n_other, enc))
+
+
+def h_forbidden_1pu(ctx):
+    """ECDH-1PU key wrapping with a content encryption that is not AES-CBC-HMAC is refused at encryption time - whichever entry of a general
+    JSON message names it."""
+    scen.register_drafts()
+    p_alg = ctx.choose("1pu_alg", ["ECDH-1PU+A128KW", "ECDH-1PU+A256KW"])
+    p_kind = ctx.choose("1pu_key", ["X25519", "P-256"])
+    n = ctx.choose("recipients", [1, 2, 3])
+    pos = ctx.choose("position_of_the_1pu_entry", range(n))
+    o_alg, o_kind = ctx.choose("other_entries", [k for k in MIX_KINDS if "1PU" not in k[0]])
+    enc = ctx.choose("enc", ["A128GCM", "A256GCM", "C20P", "XC20P"])
+    form = ctx.choose("form", ["general"] if n > 1 else ["general", "flattened", "compact"])
+    recs = []
+    for j in range(n):
+        alg, kind = (p_alg, p_kind) if j == pos else (o_alg, o_kind)
+        jwk = scen.key(kind, j)
+        pub = A.jkey(jwk if jwk["kty"] == "oct" else rjwk.public_of(jwk), "dict")
+        recs.append(({"alg": alg, "kid": f"k{j}"}, pub, A.jkey(scen.key(kind, 7), "dict") if "1PU" in alg else None))
+    algs = [p_alg, o_alg, enc]
+    if form == "general":
+        r = scen.jwe_encrypt("general", {"enc": enc}, b"x", None, algs, recipients=recs)
+    else:
+        r = scen.jwe_encrypt(form, {"alg": p_alg, "enc": enc}, b"x", recs[0][1], algs, sender_key=recs[0][2])
+    vs = []
+    if r.ok:
+        vs.append(viol(f"ECDH-1PU key wrapping with a non-CBC-HMAC content encryption is not refused at encryption [{ENC[enc][0]}]",
+                       f"{p_alg} on {p_kind} as entry {pos} of {n} ({o_alg} for the others), enc {enc}, {form}: a token was produced"))
+    return Outcome(f"refused:{r.etype}" if not r.ok else "produced", vs, nontrivial=(p_alg, p_kind, n, pos, o_alg, enc, form))
 
 
 def h_def_limit(ctx):
@@ -490,12 +528,14 @@ def h_threads(ctx, menu_idx=None):
 
 
 _pf = Part("forbidden-mixes", h_forbidden, split_depth=2)
+_pf1 = Part("forbidden-1pu-key-wrapping-with-other-encs", h_forbidden_1pu, split_depth=2)
+_pf1.single_bucket_ok = True
 _pf.single_bucket_ok = True
 PARTS = [
     Part("thread-schedules", h_threads, bound={"quick": 1, "thorough": 2}, split_depth=2, budget={"quick": 2400, "thorough": 3000}, engine="E3"),
     Part("single-recipient", h_single, bound={"quick": 1, "thorough": 2}, split_depth=2, budget={"quick": 1500, "thorough": 2400}),
     Part("multi-recipient", h_multi, bound={"quick": 1, "thorough": 2}, split_depth=2, budget={"quick": 1200, "thorough": 1800}),
-    _pf,
+    _pf, _pf1,
     Part("def-up-to-the-limit", h_def_limit, split_depth=3),
     Part("decrypt-then-the-caller-edits-then-decrypt", h_decrypt_sequences, split_depth=3),
     Part("objects-handed-over-as-copies", h_copies, split_depth=2),
